@@ -250,7 +250,7 @@ static void eval_call(int N, int C, const float *mem0, const float *x0, float *y
       for (i = 0; i < N * C; i++) if (f2u(x0[i]) != f2u(y[i])) {
          v->kind = 4; v->idx = i; snprintf(v->exp, sizeof v->exp, "output bit-identical to the input, memory stays 0");
          snprintf(v->obs, sizeof v->obs, "in[%d]=%08x out[%d]=%08x", i, f2u(x0[i]), i, f2u(y[i])); return; }
-      for (c = 0; c < C; c++) if (f2u(mem[c]) != 0) {
+      for (c = 0; c < C; c++) if (mem[c] != 0.f) {   /* value comparison: -0.0 is still a cleared memory */
          v->kind = 4; v->idx = c; snprintf(v->exp, sizeof v->exp, "output bit-identical to the input, memory stays 0");
          snprintf(v->obs, sizeof v->obs, "declip_mem[%d] became %08x", c, f2u(mem[c])); return; }
    }
@@ -356,6 +356,7 @@ static void gen_audio(vrng *r, float *pcm, int n, int ch, int kind, double *phas
    }
 }
 
+static double gain_tol = 4e-6;   /* relative tolerance of the gain factor against 10^(g/5120); overridden by argv[4] (tools/props/C19_calib.json) */
 static void run_gainsearch(uint64_t seed, long streams)
 {
    vrng r; long s; r.s = seed ^ 0x6A19;
@@ -371,7 +372,7 @@ static void run_gainsearch(uint64_t seed, long streams)
         float G = celt_exp2(MULT16_16_P15(QCONST16(6.48814081e-4f, 25), g));
         double want = pow(10.0, g / 5120.0), rel = fabs(G - want) / want;
         if (rel > max_rel) max_rel = rel;
-        if (rel > 4e-6 && wit++ < 8) printf("W gain-factor | OPUS_SET_GAIN(%d) | gain factor 10^(g/5120)=%.9g within 4e-6 relative | celt_exp2(6.48814081e-4f*g)=%.9g (relative error %.3g) | a decoder gain of g (Q8 dB) must multiply the signal by 10^(g/5120)\n", g, want, G, rel);
+        if (rel > gain_tol && wit++ < 8) printf("W gain-factor | OPUS_SET_GAIN(%d) | gain factor 10^(g/5120)=%.9g within the calibrated relative tolerance | celt_exp2(6.48814081e-4f*g)=%.9g (relative error %.3g) | a decoder gain of g (Q8 dB) must multiply the signal by 10^(g/5120)\n", g, want, G, rel);
    } }
    for (s = 0; s < streams; s++) {
       int Fs = rates[vbelow(&r, 5)], ch = vrange(&r, 1, 2), dch = vrange(&r, 1, 2), dFs = rates[vbelow(&r, 5)];
@@ -435,9 +436,30 @@ static void run_gainsearch(uint64_t seed, long streams)
    printf("STAT cases=%ld streams=%ld lost=%ld samples=%ld saturating_samples=%ld gain_factor_max_rel_err=%.3g witnesses=%ld\n", frames_total, streams, lost, samples, sat_hits, max_rel, wit);
 }
 
+/* stdin: re-run recorded `softclip clip N C flags <mem> <x>` lines: the tie answer (I/O lines) and, for flags 0, the
+   property predicates on the implementation (P line). */
+static void run_stdin(void)
+{
+   static char line[1 << 20], memh[1 << 10], xh[1 << 20]; static unsigned char mb[256], xb[4 * 5760 * 8];
+   static float y[5760 * 8]; float mo[8];
+   while (fgets(line, sizeof line, stdin)) {
+      int N, C, flags; long ml, xl; viol v;
+      if (sscanf(line, "softclip clip %d %d %d %1023s %1048575s", &N, &C, &flags, memh, xh) != 5) continue;
+      ml = vunhex(memh, mb, sizeof mb); xl = vunhex(xh, xb, sizeof xb);
+      if (ml < 0 || xl < 0 || ml % 4 || xl % 4) continue;
+      if (flags == 0 && N >= 1 && C >= 1 && C <= 8 && xl == 4L * N * C && ml == 4L * C) {
+         eval_call(N, C, (float *)mb, (float *)xb, y, mo, &v);
+         printf("P kind=%d %s | %s\n", v.kind, v.kind ? v.exp : "bounded, sign kept, pass-through where applicable", v.kind ? v.obs : "ok");
+      }
+      tie_case(N, C, (flags & 1) ? NULL : (float *)xb, xl / 4, (flags & 2) ? NULL : (float *)mb, ml / 4);
+   }
+}
+
 int main(int argc, char **argv)
 {
    vinstall_traps();
+   if (argc >= 2 && !strcmp(argv[1], "stdin")) { run_stdin(); return 0; }
+   if (argc >= 5 && !strcmp(argv[1], "gainsearch")) gain_tol = atof(argv[4]);
    if (argc >= 4 && !strcmp(argv[1], "rand")) run_rand(strtoull(argv[2], 0, 10), atol(argv[3]));
    else if (argc >= 2 && !strcmp(argv[1], "edge")) run_edge();
    else if (argc >= 3 && !strcmp(argv[1], "gain")) run_gain(atoi(argv[2]));
